@@ -257,6 +257,7 @@ func (s blobVerifierShim) VerifyBlob(ctx context.Context, gen notation.BlobDescr
 type sigEntry struct {
 	mt   string
 	blob []byte
+	man  ocispec.Descriptor // the signature manifest descriptor the repository lists (with the manifest annotations)
 }
 
 type mockRepo struct {
@@ -270,27 +271,33 @@ func (r *mockRepo) Resolve(ctx context.Context, reference string) (ocispec.Descr
 	return r.desc, nil
 }
 
+// ListSignatures lists, as registry.Repository does over a registry or an OCI layout, the signature
+// manifest descriptors WITH the annotations of the manifests (certificate thumbprints, creation time).
 func (r *mockRepo) ListSignatures(ctx context.Context, desc ocispec.Descriptor, fn func([]ocispec.Descriptor) error) error {
 	var ms []ocispec.Descriptor
-	for i := range r.sigs {
-		ms = append(ms, ocispec.Descriptor{MediaType: "application/vnd.oci.image.manifest.v1+json", Digest: digest.FromString(fmt.Sprint("sigmanifest", i)), Size: int64(i)})
+	for _, s := range r.sigs {
+		m := s.man
+		m.Annotations = cpMap(s.man.Annotations)
+		ms = append(ms, m)
 	}
 	return fn(ms)
 }
 
 func (r *mockRepo) FetchSignatureBlob(ctx context.Context, desc ocispec.Descriptor) ([]byte, ocispec.Descriptor, error) {
-	i := int(desc.Size)
-	if i < 0 || i >= len(r.sigs) {
-		return nil, ocispec.Descriptor{}, errors.New("mock: no such signature")
+	for _, s := range r.sigs {
+		if s.man.Digest == desc.Digest {
+			return s.blob, ocispec.Descriptor{MediaType: s.mt, Digest: digest.FromBytes(s.blob), Size: int64(len(s.blob))}, nil
+		}
 	}
-	s := r.sigs[i]
-	return s.blob, ocispec.Descriptor{MediaType: s.mt, Digest: digest.FromBytes(s.blob), Size: int64(len(s.blob))}, nil
+	return nil, ocispec.Descriptor{}, errors.New("mock: no such signature")
 }
 
 func (r *mockRepo) PushSignature(ctx context.Context, mediaType string, blob []byte, subject ocispec.Descriptor, annotations map[string]string) (ocispec.Descriptor, ocispec.Descriptor, error) {
-	r.sigs = append(r.sigs, sigEntry{mediaType, append([]byte(nil), blob...)})
 	bd := ocispec.Descriptor{MediaType: mediaType, Digest: digest.FromBytes(blob), Size: int64(len(blob))}
-	return bd, ocispec.Descriptor{MediaType: "application/vnd.oci.image.manifest.v1+json", Digest: digest.FromString("m" + string(bd.Digest)), Size: 1}, nil
+	man := ocispec.Descriptor{MediaType: "application/vnd.oci.image.manifest.v1+json", Digest: digest.FromString("m" + string(bd.Digest)), Size: int64(700 + len(r.sigs)),
+		ArtifactType: "application/vnd.cncf.notary.signature", Annotations: cpMap(annotations)}
+	r.sigs = append(r.sigs, sigEntry{mediaType, append([]byte(nil), blob...), man})
+	return bd, man, nil
 }
 
 // ---------- case description ----------
@@ -535,6 +542,8 @@ func verifyClass(err error) int64 {
 		return 2
 	case strings.Contains(m, "failed to generate descriptor for given artifact"):
 		return 5
+	case strings.Contains(m, "digital signature has expired"):
+		return 6
 	case errors.As(err, &au), strings.Contains(m, "signature is not produced by a trusted signer"):
 		return 1
 	}
@@ -715,8 +724,8 @@ func setup() *env {
 }
 
 func runC07(a *Args) error {
-	prelude := "From NV Require Import Base C07_Model.\nOpen Scope string_scope.\n"
-	w := NewCaseWriter(a, "C07", prelude, "case", "run")
+	prelude := "From NV Require Import Base C07_Model C07_Multi.\nOpen Scope string_scope.\n"
+	w := NewCaseWriter(a, "C07", prelude, "xcase", "xrun")
 	w.ShardSize = 600
 	w.Rule = "sign->verify pairs on the real API: {RSA-2048/3072/4096, EC-256/384/521} x {JWS, COSE} x {OCI descriptor, blob} x {local signer, plugin signature generator, plugin envelope generator} as a full grid with generated descriptors (urls, data, platform, artifactType, annotations), blob contents of sizes 0..1 MiB (thorough: 4 MiB) handed over as io.Readers of 7 shapes for signing x 7 for verifying (bytes.Reader, no-WriteTo, data together with io.EOF, gzip, one byte at a time, half reads, (0,nil) reads; sizes 0, 1, 32 KiB and 64 KiB -1/0/+1) plus readers failing with a non-EOF error at the start / middle / last byte with and without data, media types, user-metadata maps (quotes, HTML characters, non-ASCII, U+2028, empty values), expiry durations (0, seconds .. 100 years), signing agents; plus streams that violate one rule each: illegal arguments (negative / sub-second duration, bad envelope or content media type), reserved or clashing metadata keys, untrusted signer, changed blob / descriptor / media type at verification, metadata demanded at verification (subset, wrong value, missing, reserved), plugins that describe an unknown or a wrong key spec or have no / both capabilities, strings that are not valid UTF-8, descriptor sizes around 2^53 (JWS float64 finding); systematic families: verification LESS specific than signing (no content media type, nil / empty / one / all metadata), nil vs empty maps and empty keys / values, history (ONE signer instance signs 4 things in sequence with an illegal request in the middle, each step its own case), other signatures (other artifact / untrusted signer) listed before / after / around the genuine one in the repository. non-trivial = signing succeeded and verification was attempted; distinct = distinct input tuples"
 	w.Assumptions = []string{
@@ -1026,7 +1035,7 @@ func runC07(a *Args) error {
 			return
 		}
 		sc, vcode := res.sc, res.vcode
-		w.Add(my, res.term, c, res.key, res.signed)
+		w.Add(my, "(XS "+res.term+")", c, res.key, res.signed)
 		w.Count("family", c.Family)
 		w.Count("key", c.Key)
 		w.Count("format", c.Format)
@@ -1060,11 +1069,13 @@ func runC07(a *Args) error {
 	if out := os.Getenv("VH_C07_CONC_CHILD"); out != "" {
 		return concChild(a, e, exec, out)
 	}
+	multiRuns := multiSign(a, e, w)
 	gen := &generator{rng: rng, tier: a.Tier}
-	if a.Only < concBase {
+	if a.Only < multiBase {
 		gen.all(runCase)
 	}
 	concParent(a, w, add)
+	multiVerify(multiRuns, e, w)
 	// regression inputs
 	if a.Corpus != "" {
 		files, _ := filepath.Glob(filepath.Join(a.Corpus, "*.json"))
